@@ -103,3 +103,300 @@ Theorem C12_header_once : forall bc,
   has_cpp_mark (make_default_block_comment bc) = true.
 Proof. exact default_header_once. Qed.
 Print Assumptions C12_header_once.
+
+(* ================================================================================================ *)
+(* Document level: comments survive write -> read                                                    *)
+(* ================================================================================================ *)
+From DictIO Require Import Value Scalar KeyPath TokParser TreeSpec NativeSpec E2ESpec.
+From DictIO Require Import E2EProofs E2EHoles E2EKeyTok E2EFullProofs.
+From DictIO Require Import RereadPlain RereadStr RereadTree RereadWrite RereadLex RereadNum RereadProofs RereadFix RereadOff.
+From Coq Require Import Lia.
+Open Scope N_scope.
+
+(* The vocabulary (RereadTree, RereadProofs):
+     canon s        the data of s with every comment placeholder entry replaced by an id-free entry
+                    (KS LINECOMMENT / KS BLOCKCOMMENT, Leaf (SStr text)) that carries the comment text;
+     hdr c          top-level block comments first (sort_top), and the default header entry in front unless the first of
+                    them carries the C++ mark;  written_doc s = hdr (canon s);
+     events 0 (Dict c), cat cm_line    the statements of a document in text order and their text: an ordinary entry as the
+                    formatter lays it out, a comment entry as the line  indentation ++ text;
+     cwv c          c with every ordinary leaf replaced by what the classifier reads from its written form;
+     number count c the SDict with the placeholders numbered in text order (line comments by the counter, block comments
+                    from zero) and the tables filled accordingly;
+     rereadable s   the class (see C03.v and RereadTree.v). *)
+
+(* The written text: every comment of the SDict appears on a line of its own, at the indentation of its dict level,
+   with its exact text, the header first *)
+Theorem C12_written_text : forall s, rereadable s = true ->
+  to_string_sd s = remove_trailing_spaces (cat cm_line (events 0 (Dict (written_doc s)))).
+Proof. exact writer_canon. Qed.
+Print Assumptions C12_written_text.
+
+(* The output always begins with a header block comment that carries the C++ mark: the SDict's own first top-level block
+   comment if it is marked, otherwise the default header, followed by the SDict's block comments *)
+Theorem C12_header_first : forall s,
+  has_header (written_doc s) = true /\
+  (has_header (csort (canon s)) = true -> written_doc s = csort (canon s)) /\
+  (has_header (csort (canon s)) = false -> written_doc s = (KS w_BLOCKCOMMENT, Leaf (SStr nh_txt)) :: csort (canon s)) /\
+  nh_txt ++ [c_lf] = native_header.
+Proof. exact header_first. Qed.
+Print Assumptions C12_header_first.
+
+(* WANTED: for every SDict the reader returns for a commented native source.  PROVED for the class rereadable (see the
+   account in C03.v: no comment entries inside lists, comment texts pairwise distinct, SDicts rather than source texts).
+   Reading the written text back: (a) the ordinary data at the same key paths in the same order, every leaf as the
+   classifier reads its written form; (b), (c) the same canonical form -- every line comment and block comment with its
+   exact text at its place among the entries of its dict level, in the same order, top-level block comments first, the
+   header in front; (d) the placeholder ids consecutive in text order: line comments from the counter on, block comments
+   from zero *)
+Theorem C12_comments_survive_partial : forall s dir count, rereadable s = true -> (-1 <= count)%Z ->
+  (Z.of_nat (length (lc_list (written_doc s))) <= 1000000)%Z -> (Z.of_nat (length (bc_list (written_doc s))) <= 1000000)%Z ->
+  (Z.of_nat (length (lit_list (written_doc s))) <= 1000000)%Z ->
+  exists s' count',
+    parse_string true dir count (to_string_sd s) = Ok (mkParsed s' count') /\
+    cstrip (Dict (sd_data s')) = map_leaves written_value (cstrip (Dict (sd_data s))) /\
+    canon s' = cwv (written_doc s) /\
+    sd_lc s' = combine (ids count (length (lc_list (written_doc s)))) (lc_list (written_doc s)) /\
+    sd_bc s' = number_from 0 (bc_list (written_doc s)) /\
+    sd_inc s' = [] /\ sd_expr s' = [].
+Proof. exact comments_survive. Qed.
+Print Assumptions C12_comments_survive_partial.
+
+Definition ex12_ph (w : str) (i : N) : key * tree := (KS (placeholder w i), Leaf (SStr (placeholder w i))).
+(* a marked header of its own, a line comment in front of it in the data (the writer moves the header to the top), a
+   nested dict with both kinds of comments, a quoted string *)
+Definition ex12_sd : sdict :=
+  mkSD [ ex12_ph w_LINECOMMENT 7;
+         (KS (of_string "a"), Leaf (SStr (of_string "two words")));
+         ex12_ph w_BLOCKCOMMENT 3;
+         (KS (of_string "sub"), Dict [ex12_ph w_LINECOMMENT 2; (KS (of_string "b"), Leaf (SInt 5)); ex12_ph w_BLOCKCOMMENT 5]);
+         ex12_ph w_LINECOMMENT 4 ]
+       [(2, of_string "// two: it's {here}"); (4, of_string "// four"); (7, of_string "// seven")]
+       [(3, of_string "/* my own C++ header */"); (5, of_string "/* five
+   more */")] [] [].
+
+Example C12_written_text_nonvacuous :
+  rereadable ex12_sd = true /\
+  to_string_sd ex12_sd = of_string
+"/* my own C++ header */
+// seven
+a                             'two words';
+sub
+{
+    // two: it's {here}
+    b                         5;
+    /* five
+   more */
+}
+// four
+" /\
+  to_string_sd ex12_sd = remove_trailing_spaces (cat cm_line (events 0 (Dict (written_doc ex12_sd)))) /\
+  has_header (written_doc ex12_sd) = true /\ written_doc ex12_sd = csort (canon ex12_sd).
+Proof.
+  assert (H0 : rereadable ex12_sd = true) by (vm_compute; reflexivity).
+  refine (conj H0 (conj _ (conj (C12_written_text ex12_sd H0) (conj (proj1 (C12_header_first ex12_sd)) _)))).
+  - vm_compute. reflexivity.
+  - apply (proj1 (proj2 (C12_header_first ex12_sd))). vm_compute. reflexivity.
+Qed.
+
+(* an SDict without a block comment of its own gets the default header *)
+Example C12_header_first_nonvacuous :
+  let s := mkSD [(KS (of_string "a"), Leaf (SInt 1)); ex12_ph w_LINECOMMENT 1] [(1, of_string "// one")] [] [] [] in
+  rereadable s = true /\ has_header (csort (canon s)) = false /\ has_header (written_doc s) = true /\
+  written_doc s = (KS w_BLOCKCOMMENT, Leaf (SStr nh_txt)) :: csort (canon s) /\
+  to_string_sd s = native_header ++ of_string "a                             1;
+// one
+".
+Proof.
+  intros s. assert (H0 : rereadable s = true) by (vm_compute; reflexivity).
+  assert (H1 : has_header (csort (canon s)) = false) by (vm_compute; reflexivity).
+  destruct (C12_header_first s) as (A & _ & B & _).
+  refine (conj H0 (conj H1 (conj A (conj (B H1) _)))). vm_compute. reflexivity.
+Qed.
+
+Example C12_comments_survive_partial_nonvacuous :
+  rereadable ex12_sd = true /\
+  (Z.of_nat (length (lc_list (written_doc ex12_sd))) <= 1000000)%Z /\ (Z.of_nat (length (bc_list (written_doc ex12_sd))) <= 1000000)%Z /\
+  (Z.of_nat (length (lit_list (written_doc ex12_sd))) <= 1000000)%Z /\
+  (exists s' count',
+     parse_string true [] 9 (to_string_sd ex12_sd) = Ok (mkParsed s' count') /\
+     cstrip (Dict (sd_data s')) = map_leaves written_value (cstrip (Dict (sd_data ex12_sd))) /\
+     canon s' = cwv (written_doc ex12_sd) /\
+     sd_lc s' = combine (ids 9 (length (lc_list (written_doc ex12_sd)))) (lc_list (written_doc ex12_sd)) /\
+     sd_bc s' = number_from 0 (bc_list (written_doc ex12_sd)) /\ sd_inc s' = [] /\ sd_expr s' = []) /\
+  (* the tables and the canonical form, evaluated *)
+  combine (ids 9 (length (lc_list (written_doc ex12_sd)))) (lc_list (written_doc ex12_sd)) =
+    [(10, of_string "// seven"); (11, of_string "// two: it's {here}"); (12, of_string "// four")] /\
+  number_from 0 (bc_list (written_doc ex12_sd)) = [(0, of_string "/* my own C++ header */"); (1, of_string "/* five
+   more */")] /\
+  cwv (written_doc ex12_sd) =
+    [(KS w_BLOCKCOMMENT, Leaf (SStr (of_string "/* my own C++ header */")));
+     (KS w_LINECOMMENT, Leaf (SStr (of_string "// seven")));
+     (KS (of_string "a"), Leaf (SStr (of_string "two words")));
+     (KS (of_string "sub"), Dict [(KS w_LINECOMMENT, Leaf (SStr (of_string "// two: it's {here}"))); (KS (of_string "b"), Leaf (SInt 5));
+                                  (KS w_BLOCKCOMMENT, Leaf (SStr (of_string "/* five
+   more */")))]);
+     (KS w_LINECOMMENT, Leaf (SStr (of_string "// four")))].
+Proof.
+  assert (H0 : rereadable ex12_sd = true) by (vm_compute; reflexivity).
+  assert (H1 : (Z.of_nat (length (lc_list (written_doc ex12_sd))) <= 1000000)%Z) by (vm_compute; discriminate).
+  assert (H2 : (Z.of_nat (length (bc_list (written_doc ex12_sd))) <= 1000000)%Z) by (vm_compute; discriminate).
+  assert (H3 : (Z.of_nat (length (lit_list (written_doc ex12_sd))) <= 1000000)%Z) by (vm_compute; discriminate).
+  refine (conj H0 (conj H1 (conj H2 (conj H3 (conj (C12_comments_survive_partial ex12_sd [] 9%Z H0 ltac:(lia) H1 H2 H3) _))))).
+  vm_compute. repeat split; reflexivity.
+Qed.
+
+(* ---- the stages ------------------------------------------------------------------------------------- *)
+(* _extract_line_comments on the written text (given as its events): every line comment is lifted out with its exact
+   text, in text order, and replaced by the placeholder of the next counter value (by nothing with comments off);
+   everything else, block comment lines included, is left as it is *)
+Theorem C12_extract_line_comments_text : forall cm es c, Forall ev_src es ->
+  extract_line_comments cm c (splitlines (catR es)) =
+  (splitlines (catR (relab cm (ids c (length (lcx es))) es)), cafter c (length (lcx es)),
+   ins (combine (ids c (length (lcx es))) (lcx es)) []).
+Proof. exact extract_line_comments_text. Qed.
+Print Assumptions C12_extract_line_comments_text.
+
+(* _extract_block_comments on the text left by the line comment pass: exactly the block comments of the document are
+   found, in text order, numbered from zero, and each is replaced by its placeholder *)
+Theorem C12_extract_block_comments_text : forall cm es, Forall ev_mid es -> NoDup (bcx es) ->
+  extract_block_comments cm (catR es) = (catR (map (numB cm (number_from 0 (bcx es))) es), number_from 0 (bcx es)).
+Proof. exact extract_blocks_events. Qed.
+Print Assumptions C12_extract_block_comments_text.
+
+Example C12_extract_stages_nonvacuous :
+  let es := events 0 (Dict (written_doc ex12_sd)) in
+  Forall ev_src es /\ lcx es = [of_string "// seven"; of_string "// two: it's {here}"; of_string "// four"] /\
+  extract_line_comments true 9 (splitlines (catR es)) =
+    (splitlines (catR (relab true (ids 9 3) es)), 12%Z, ins (combine (ids 9 3) (lcx es)) []) /\
+  let es1 := relab true (ids 9 3) es in
+  Forall ev_mid es1 /\ NoDup (bcx es1) /\
+  extract_block_comments true (catR es1) = (catR (map (numB true (number_from 0 (bcx es1))) es1), number_from 0 (bcx es1)) /\
+  catR (map (numB true (number_from 0 (bcx es1))) es1) = of_string
+"BLOCKCOMMENT000000
+LINECOMMENT000010
+a                             'two words';
+sub
+{
+    LINECOMMENT000011
+    b                         5;
+    BLOCKCOMMENT000001
+}
+LINECOMMENT000012
+".
+Proof.
+  intros es.
+  assert (Hd : cdoc_ok (written_doc ex12_sd) = true) by (vm_compute; reflexivity).
+  destruct (cdoc_ok_inv _ Hd) as (Hs & _ & _ & Hcm & _ & Hb).
+  assert (Hsrc : Forall ev_src es) by (apply cms_of_events_src; [apply cshape_events; exact Hs|exact Hcm]).
+  assert (El : lcx es = [of_string "// seven"; of_string "// two: it's {here}"; of_string "// four"]) by (vm_compute; reflexivity).
+  pose proof (C12_extract_line_comments_text true es 9%Z Hsrc) as E1. rewrite El in E1. cbn [length] in E1.
+  assert (Ec : cafter 9 3 = 12%Z) by (vm_compute; reflexivity). rewrite Ec in E1. rewrite <- El in E1.
+  refine (conj Hsrc (conj El (conj E1 _))). intros es1.
+  assert (Hmid : Forall ev_mid es1) by (apply relab_mid; [exact Hsrc|rewrite El; reflexivity]).
+  assert (Hnd : NoDup (bcx es1)) by (unfold es1; rewrite relab_bcx; exact Hb).
+  refine (conj Hmid (conj Hnd (conj (C12_extract_block_comments_text true es1 Hmid Hnd) _))). vm_compute. reflexivity.
+Qed.
+
+(* ---- comments off ----------------------------------------------------------------------------------- *)
+(* With comments disabled on reading no comment entry is returned at any level, and the ordinary data is the same as with
+   comments on.  FINDING (model): the tables line_comments / block_comments are filled all the same, and the placeholder
+   counter advances for the line comments as with comments on -- "empty sd_lc / sd_bc" is false for the model. *)
+Theorem C12_comments_off_partial : forall s dir count, rereadable s = true -> (-1 <= count)%Z ->
+  (Z.of_nat (length (lc_list (written_doc s))) <= 1000000)%Z -> (Z.of_nat (length (bc_list (written_doc s))) <= 1000000)%Z ->
+  (Z.of_nat (length (lit_list (written_doc s))) <= 1000000)%Z ->
+  let s_on := number count (written_doc s) in let s_off := number_off count (written_doc s) in
+  parse_string true dir count (to_string_sd s) = Ok (mkParsed s_on (count_after count (written_doc s))) /\
+  parse_string false dir count (to_string_sd s) = Ok (mkParsed s_off (count_after count (written_doc s))) /\
+  cms (Dict (sd_data s_off)) = [] /\
+  Dict (sd_data s_off) = cstrip (Dict (sd_data s_on)) /\
+  Dict (sd_data s_off) = map_leaves written_value (cstrip (Dict (sd_data s))) /\
+  sd_lc s_off = sd_lc s_on /\ sd_bc s_off = sd_bc s_on.
+Proof. exact comments_off_doc. Qed.
+Print Assumptions C12_comments_off_partial.
+
+Example C12_comments_off_partial_nonvacuous :
+  rereadable ex12_sd = true /\
+  (exists s_off, parse_string false [] 9 (to_string_sd ex12_sd) = Ok (mkParsed s_off 13) /\
+     cms (Dict (sd_data s_off)) = [] /\
+     sd_data s_off = [(KS (of_string "a"), Leaf (SStr (of_string "two words"))); (KS (of_string "sub"), Dict [(KS (of_string "b"), Leaf (SInt 5))])] /\
+     (* the tables are filled although no comment entry is returned *)
+     sd_lc s_off = [(10, of_string "// seven"); (11, of_string "// two: it's {here}"); (12, of_string "// four")] /\
+     map fst (sd_bc s_off) = [0; 1]).
+Proof.
+  assert (H0 : rereadable ex12_sd = true) by (vm_compute; reflexivity).
+  assert (H1 : (Z.of_nat (length (lc_list (written_doc ex12_sd))) <= 1000000)%Z) by (vm_compute; discriminate).
+  assert (H2 : (Z.of_nat (length (bc_list (written_doc ex12_sd))) <= 1000000)%Z) by (vm_compute; discriminate).
+  assert (H3 : (Z.of_nat (length (lit_list (written_doc ex12_sd))) <= 1000000)%Z) by (vm_compute; discriminate).
+  destruct (C12_comments_off_partial ex12_sd [] 9%Z H0 ltac:(lia) H1 H2 H3) as (_ & B & C & _).
+  assert (Hc : count_after 9 (written_doc ex12_sd) = 13%Z) by (vm_compute; reflexivity). rewrite Hc in B.
+  split; [exact H0|]. exists (number_off 9 (written_doc ex12_sd)). split; [exact B|]. split; [exact C|]. vm_compute. repeat split; reflexivity.
+Qed.
+
+(* ---- findings: why the side conditions of the class are there (each evaluated on the model) --------------------- *)
+Definition f_names (p : parsed) : list str := map (fun kv => match fst kv with KS s => s | KI _ => [] end) (sd_data (pr_sd p)).
+
+(* 1. lc_ok, no trailing white space: the writer strips trailing white space of every line, so a line comment that ends
+      with blanks comes back without them (its text is NOT exact) *)
+Example C12_finding_trailing_space :
+  let s := mkSD [ex12_ph w_BLOCKCOMMENT 0; ex12_ph w_LINECOMMENT 1; (KS (of_string "a"), Leaf (SInt 1))]
+                [(1, of_string "// four  ")] [(0, nh_txt)] [] [] in
+  rereadable s = false /\
+  match parse_string true [] 5 (to_string_sd s) with Ok p => map snd (sd_lc (pr_sd p)) = [of_string "// four"] | Raise _ => False end.
+Proof. vm_compute. split; reflexivity. Qed.
+
+(* 2. distinct line comment texts: of two equal line comments in one dict the reader (SDict._clean) keeps the first only *)
+Example C12_finding_equal_line_comments :
+  match parse_string true [] (-1) (of_string "// x
+a 1;
+// x
+b 2;
+") with
+  | Ok p => f_names p = [of_string "LINECOMMENT000000"; of_string "a"; of_string "b"] /\ sd_lc (pr_sd p) = [(0, of_string "// x")]
+  | Raise _ => False
+  end.
+Proof. vm_compute. split; reflexivity. Qed.
+
+(* 3. bcgood, slash-star only at the beginning: a block comment that contains the text of an earlier one is garbled by the
+      reader (str.replace of the earlier text hits inside it; no placeholder entry for it is returned) *)
+Example C12_finding_nested_opener :
+  match parse_string true [] (-1) (of_string "/*x*/
+a 1;
+/* y /*x*/
+") with
+  | Ok p => f_names p = [of_string "BLOCKCOMMENT000000"; of_string "a"] /\ map fst (sd_bc (pr_sd p)) = [0; 1]
+  | Raise _ => False
+  end.
+Proof. vm_compute. split; reflexivity. Qed.
+
+(* 4. bc_ok, no double slash: line comments are lifted out first, so a double slash inside a block comment tears it apart *)
+Example C12_finding_slashes_in_block_comment :
+  match parse_string true [] (-1) (of_string "/* a // b */
+a 1;
+") with
+  | Ok p => sd_lc (pr_sd p) = [(0, of_string "// b */")] /\ sd_bc (pr_sd p) = []
+  | Raise _ => False
+  end.
+Proof. vm_compute. split; reflexivity. Qed.
+
+(* 5. distinct block comment texts: the writer leaves out a block comment whose text was inserted before *)
+Example C12_finding_equal_block_comments :
+  let s := mkSD [ex12_ph w_BLOCKCOMMENT 0; (KS (of_string "a"), Dict [ex12_ph w_BLOCKCOMMENT 2; (KS (of_string "b"), Leaf (SInt 1))])]
+                [] [(0, nh_txt); (2, nh_txt)] [] [] in
+  rereadable s = false /\
+  to_string_sd s = native_header ++ of_string "a
+{
+
+    b                         1;
+}
+".
+Proof. vm_compute. split; reflexivity. Qed.
+
+(* 6. phfree: a comment text that spells the placeholder pair of a comment inserted later is changed by the writer *)
+Example C12_finding_placeholder_in_comment :
+  let s := mkSD [ex12_ph w_BLOCKCOMMENT 0; ex12_ph w_LINECOMMENT 1; ex12_ph w_LINECOMMENT 2]
+                [(1, of_string "// LINECOMMENT000002 LINECOMMENT000002;"); (2, of_string "// two")] [(0, nh_txt)] [] [] in
+  rereadable s = false /\ to_string_sd s = native_header ++ of_string "// // two
+// two
+".
+Proof. vm_compute. split; reflexivity. Qed.
